@@ -588,12 +588,12 @@ Proof.
     destruct i as [i|], i' as [i'|]; simpl in Hi; try contradiction.
     + destruct Hi as [Ee Hv]. rewrite Ee. destruct (is_evaluating i').
       * apply arel_add_err. now apply IH.
-      * assert (HV : ap_c (match is_value i with Some v => v | None => [] end) (match is_value i' with Some v => v | None => [] end)).
-        { destruct (is_value i), (is_value i'); simpl in Hv; try contradiction; [exact Hv|constructor]. }
+      * destruct (is_value i) as [v|], (is_value i') as [v'|]; simpl in Hv; try contradiction; [|now apply IH].
         apply IH; [destruct merge; [now apply ap_app|exact Hb]|now apply ainsert_rel].
     + apply arel_call_l; [apply HW|]. apply arel_call_r; [apply HW|]. apply arel_emit_l. apply arel_emit_r.
       rewrite (wc_envs _ _ HW).
-      destruct (alookup n (w_envs Wo)) as [[| |d]|] eqn:L; try (apply arel_add_err; now apply IH).
+      destruct (alookup n (w_envs Wo)) as [[| |d]|] eqn:L;
+        try (apply arel_add_err; apply arel_imps_set; [split; [reflexivity|exact I]|]; now apply IH).
       arel_bind_with (chain_ap ap_l); [apply HEnv; eapply envs_ntj; exact L|].
       intros v v' Hv. apply arel_imps_set; [split; [reflexivity|exact Hv]|].
       apply IH; [destruct merge; [now apply ap_app|exact Hb]|now apply ainsert_rel].
@@ -616,7 +616,7 @@ Theorem sim_env : forall f, Q_env f.
 Proof.
   induction f as [|f IH]; intros root name d Hd.
   - rewrite !eval_env_O. apply arel_oof.
-  - rewrite !eval_env_S. cbv zeta. set (root' := if String.eqb root "" then name else root).
+  - rewrite !eval_env_S. cbv zeta. set (root' := if String.eqb root "" || String.eqb root "<yaml>" then name else root).
     apply arel_imps_set; [split; [reflexivity|exact I]|].
     apply (arel_bind imp_res_ap).
     + apply arel_imports_go; [exact IH|constructor|constructor].
